@@ -46,8 +46,8 @@ PROPS = {
     "C16": {"slices": WIRE, "trusted": SRV_TRUST, "assumptions": ["liveness of the Go code (no hang, no crash) is tested, not proved"]},
     "C17": {"slices": WIRE, "trusted": SRV_TRUST, "assumptions": ["ResetCollection is not modelled yet"]},
     "C18": {"slices": WIRE, "trusted": SRV_TRUST, "assumptions": ["realtime clients are not driven yet; publishes are recorded at the broker"]},
-    "C19": {"slices": DOC, "trusted": ["github.com/wI2L/jsondiff (the edit script generator) is exercised, not modelled"],
-            "assumptions": ["PARTIAL: 'the result equals the target' and convergence of other replicas are decided by replay + oracle, not by a theorem (see Properties/C19.v)", "the REST endpoint PatchDocument is not driven"]},
+    "C19": {"slices": DOC + [WIRE[3]], "trusted": ["github.com/wI2L/jsondiff (the edit script generator) is exercised, not modelled"],
+            "assumptions": ["PARTIAL: 'the result equals the target' and convergence of other replicas are decided by replay + oracle, not by a theorem (see Properties/C19.v)", "the REST endpoint PatchDocument is driven by the wire-doc slice and judged by Go oracles (answer = target, stored log rebuilds to the target, log invariants, convergence of clients); its handler path with the administrative volatile client is not modelled: the model takes the stored operations over as observed"]},
     "C01": {"slices": CRDT + DOC, "trusted": [], "assumptions": ["clocks below the half-range wrap", "delivery in log order, whole transaction units"]},
     "C02": {"slices": CRDT, "trusted": [], "assumptions": ["clocks below the half-range wrap"]},
     "C09": {"slices": CRDT + DOC, "trusted": [], "assumptions": ["snapshot export/import is the identity on the model state (C10 carries the round trip)"]},
